@@ -396,6 +396,8 @@ class Inquiry(SCSICommand):
         convert.decode_bits(_sig, cls._ata_signature_bits, _r)
         result.update({"signature": _r})
         convert.decode_bits(_identify, cls._ata_identify_bits, _r)
+        # IDENTIFY data consists of little-endian words, specific configuration is word 2
+        _r["specific_config"] = int.from_bytes(_identify[4:6], "little")
         _gc = {}
         convert.decode_bits(_identify[:2], cls._ata_identify_gen_conf_bits, _gc)
         _r["general_config"] = _gc
